@@ -36,9 +36,10 @@ WORKERS = {"parser.Parser", "transformer.MapfileToDict", "transformer.MapfileTra
 MEMO_TABLES = {("validator.Validator", "schemas"): "raw schema JSON by file name", ("validator.Validator", "expanded_schemas"): "expanded schema by (name, version)"}
 READONLY_ROOTS = ["pprint.PrettyPrinter.pprint", "validator.Validator.validate", "dictutils.find", "dictutils.findall", "dictutils.findunique", "dictutils.findkey"]
 # reads of keys every Mapfile object carries
+# (class prefix, key literal): tabled by role, not by variable name or helper, so that moving the read into a helper keeps it tabled
 P4_TABLED = {
-    ("pprint.PrettyPrinter.pprint", "composite['__type__']"): "every root Mapfile object carries __type__ (pprint's contract)",
-    ("validator.Validator.create_message", "d['__type__']"): "object-level error: the instance is a Mapfile object and carries __type__",
+    ("pprint.PrettyPrinter.", "__type__"): "every Mapfile object handed to the printer carries __type__ (pprint's contract)",
+    ("validator.Validator.", "__type__"): "the object an error is reported on (or the root that selected the schema) is a Mapfile object and carries __type__",
 }
 
 
@@ -126,9 +127,16 @@ def run(ctx: Ctx) -> None:
             if m == "__init__":
                 continue
             tracked |= set(E.sum[f"{cq}.{m}"].self_attr_writes)
+        memo_ok = set()
         for attr in sorted(tracked):
             if (cq, attr) in MEMO_TABLES:
                 ctx.ok("S4", f"{cq}.{attr} (memo table)", f"mappyfile/{mod}.py", MEMO_TABLES[(cq, attr)] + "; keyed lookups only", nontrivial=False)
+                memo_ok.add(attr)
+                continue
+            is_memo, why = _sound_memo_table(repo, E, cq, attr, tracked)
+            if is_memo:
+                ctx.ok("S4", f"{cq}.{attr} (memo table)", f"mappyfile/{mod}.py", why)
+                memo_ok.add(attr)
                 continue
             for m, fn in meths.items():
                 if m.startswith("_"):
@@ -139,8 +147,8 @@ def run(ctx: Ctx) -> None:
                 if not bad:
                     ctx.ok("S4", f"{cq}.{m}: self.{attr}", repo.loc(mod, fn), "written before read on every path (or not used)")
         # stores outside __init__ on classes that should have none
-        if cq in ("pprint.PrettyPrinter", "quoter.Quoter", "transformer.MapfileTransformer") and tracked:
-            for attr in sorted(tracked):
+        if cq in ("pprint.PrettyPrinter", "quoter.Quoter", "transformer.MapfileTransformer") and tracked - memo_ok:
+            for attr in sorted(tracked - memo_ok):
                 ctx.finding("S4", f"{cq}.{attr} stored outside __init__", f"mappyfile/{mod}.py", f"{cq} keeps per-call state in self.{attr}; reuse across documents / threads would see it")
 
     # ---- S5 ------------------------------------------------------------------------------------
@@ -193,8 +201,9 @@ def run(ctx: Ctx) -> None:
             key = norm(n)
             if verdict == "skip":
                 continue
-            if (q, key) in P4_TABLED:
-                ctx.ok("S6", f"{q} | {key}", repo.loc(q.split(".")[0], n), "tabled: " + P4_TABLED[(q, key)], nontrivial=False)
+            tabled = next((why_ for (pref, lit), why_ in P4_TABLED.items() if q.startswith(pref) and isinstance(n.slice, ast.Constant) and n.slice.value == lit), None)
+            if tabled and verdict != "safe":
+                ctx.ok("S6", f"{q} | {key}", repo.loc(q.split(".")[0], n), "tabled: " + tabled, nontrivial=False)
             elif verdict == "safe":
                 ctx.ok("S6", f"{q} | {key}", repo.loc(q.split(".")[0], n), why)
             else:
@@ -214,6 +223,90 @@ def _flat(body):
 # -------------------------------------------------------------------------------------------------
 # S4: must-write-before-read
 # -------------------------------------------------------------------------------------------------
+
+
+def _sound_memo_table(repo, E, cq: str, attr: str, tracked: set) -> tuple[bool, str]:
+    """self.<attr> is a memo table whose content cannot make one call observable in another:
+    (1) __init__ binds it to an empty dict; (2) outside __init__ it is touched only by keyed stores
+    ``self.attr[K] = V``, keyed reads ``self.attr[K]`` / ``.get(K)`` and membership tests; (3) at every
+    store, each parameter or loop variable the stored value V depends on (def-use closure inside the
+    function) is itself, unmodified, a component of the key K, and every instance attribute it depends
+    on is never written outside __init__ - so V is a function of K and of construction-time options."""
+    mod, cname = cq.split(".")
+    meths = repo.module(mod).methods[cname]
+    init = meths.get("__init__")
+    if init is None:
+        return False, "no __init__"
+    inits = [st for st in ast.walk(init) if isinstance(st, (ast.Assign, ast.AnnAssign)) and any(isinstance(t, ast.Attribute) and t.attr == attr and isinstance(t.value, ast.Name) and t.value.id == "self" for t in (st.targets if isinstance(st, ast.Assign) else [st.target]))]
+    if len(inits) != 1 or not ((isinstance(inits[0].value, ast.Dict) and not inits[0].value.keys) or (isinstance(inits[0].value, ast.Call) and dotted(inits[0].value.func) in ("dict", "OrderedDict") and not inits[0].value.args)):
+        return False, "not initialised to an empty dict in __init__"
+    n_store = 0
+    for m, fn in meths.items():
+        if m == "__init__":
+            continue
+        parents = {}
+        for par in ast.walk(fn):
+            for ch in ast.iter_child_nodes(par):
+                parents[ch] = par
+        params = {a.arg for a in fn.args.args + fn.args.kwonlyargs} - {"self"}
+        assigns: dict = {}
+        for st in ast.walk(fn):
+            if isinstance(st, ast.Assign) and len(st.targets) == 1 and isinstance(st.targets[0], ast.Name):
+                assigns.setdefault(st.targets[0].id, []).append(st.value)
+            elif isinstance(st, (ast.For, ast.comprehension)) and isinstance(st.target, ast.Name):
+                assigns.setdefault(st.target.id, []).append(st.iter)
+            elif isinstance(st, ast.AugAssign) and isinstance(st.target, ast.Name):
+                assigns.setdefault(st.target.id, []).append(st.value)
+
+        def deps(expr, seen):
+            names, attrs = set(), set()
+            for n in ast.walk(expr):
+                if isinstance(n, ast.Attribute) and isinstance(n.value, ast.Name) and n.value.id == "self":
+                    attrs.add(n.attr)
+                elif isinstance(n, ast.Name) and n.id != "self":
+                    if n.id in params:
+                        names.add(n.id)
+                    if n.id in assigns and n.id not in seen:
+                        seen.add(n.id)
+                        for v in assigns[n.id]:
+                            a, b = deps(v, seen)
+                            names |= a
+                            attrs |= b
+            return names, attrs
+
+        for n in ast.walk(fn):
+            if not (isinstance(n, ast.Attribute) and n.attr == attr and isinstance(n.value, ast.Name) and n.value.id == "self"):
+                continue
+            par = parents.get(n)
+            if isinstance(par, ast.Subscript) and par.value is n:
+                if isinstance(par.ctx, ast.Load):
+                    continue  # keyed read
+                if isinstance(par.ctx, ast.Store):
+                    st = parents.get(par)
+                    if not (isinstance(st, ast.Assign) and len(st.targets) == 1):
+                        return False, f"{m}: store to self.{attr}[..] that is not a plain assignment"
+                    key = par.slice
+                    comps = key.elts if isinstance(key, ast.Tuple) else [key]
+                    key_names = {c.id for c in comps if isinstance(c, ast.Name)}
+                    # a key component may itself be a local that is a plain copy of a parameter
+                    vn, va = deps(st.value, set())
+                    loose = {x for x in vn if x not in key_names}
+                    if loose:
+                        return False, f"{m}: the value stored under {norm(key)} depends on {sorted(loose)}, which the key does not carry unchanged"
+                    bad_attrs = (va & tracked) - {attr}
+                    if bad_attrs:
+                        return False, f"{m}: the stored value depends on self.{sorted(bad_attrs)[0]}, which changes between calls"
+                    n_store += 1
+                    continue
+                return False, f"{m}: del self.{attr}[..]"
+            if isinstance(par, ast.Compare) and n in par.comparators and all(isinstance(o, (ast.In, ast.NotIn)) for o in par.ops):
+                continue
+            if isinstance(par, ast.Attribute) and par.attr == "get" and isinstance(parents.get(par), ast.Call):
+                continue
+            return False, f"{m}: self.{attr} is used other than by key ({norm(par)[:60]})"
+    if not n_store:
+        return False, "no keyed store"
+    return True, f"memo table: empty at construction, keyed access only, every stored value is determined by its key ({n_store} store site(s))"
 
 
 def _read_before_write(repo, facts, cq: str, meth: str, attr: str) -> list:
@@ -325,6 +418,38 @@ def _ends_raise(body) -> bool:
 # -------------------------------------------------------------------------------------------------
 
 
+def _membership_dominates(fn: ast.FunctionDef, node: ast.AST, base_txt: str, key_txt: str) -> str | None:
+    """A test establishing ``key in base`` dominates ``node`` inside ``fn`` (reason text), else None."""
+    try:
+        gs = guards_at(fn, node)
+    except AnalysisError:
+        gs = []
+    for g in gs:
+        t, pos = g.test, g.positive
+        while isinstance(t, ast.UnaryOp) and isinstance(t.op, ast.Not):
+            t, pos = t.operand, not pos
+        if isinstance(t, ast.Compare) and len(t.ops) == 1 and norm(t.comparators[0]) == base_txt and norm(t.left) == key_txt:
+            if (isinstance(t.ops[0], ast.In) and pos) or (isinstance(t.ops[0], ast.NotIn) and not pos):
+                return f"dominated by '{key_txt} in {base_txt}'"
+        # `not path or key not in d[...]` negated: both disjuncts false
+        if isinstance(t, ast.BoolOp) and isinstance(t.op, ast.Or) and not pos:
+            for v in t.values:
+                if isinstance(v, ast.Compare) and len(v.ops) == 1 and isinstance(v.ops[0], ast.NotIn) and norm(v.comparators[0]) == base_txt and norm(v.left) == key_txt:
+                    return f"dominated by not ('{key_txt} not in {base_txt}')"
+        # `if isinstance(x, dict) and k not in x: raise`  negated: x is not a dict (no auto-creation) or k in x
+        if isinstance(t, ast.BoolOp) and isinstance(t.op, ast.And) and not pos and len(t.values) == 2:
+            a, b = t.values
+            is_dict_test = isinstance(a, ast.Call) and dotted(a.func) == "isinstance" and len(a.args) == 2 and norm(a.args[0]) == base_txt and "dict" in norm(a.args[1])
+            notin = isinstance(b, ast.Compare) and len(b.ops) == 1 and isinstance(b.ops[0], ast.NotIn) and norm(b.comparators[0]) == base_txt and norm(b.left) == key_txt
+            if is_dict_test and notin:
+                return f"dominated by not (isinstance({base_txt}, dict) and {key_txt} not in {base_txt})"
+        if isinstance(t, ast.BoolOp) and isinstance(t.op, ast.And) and pos:
+            for v in t.values:
+                if isinstance(v, ast.Compare) and len(v.ops) == 1 and isinstance(v.ops[0], ast.In) and norm(v.comparators[0]) == base_txt and norm(v.left) == key_txt:
+                    return f"dominated by '{key_txt} in {base_txt}'"
+    return None
+
+
 def _key_safe(fn: ast.FunctionDef, sub: ast.Subscript, E: Effects, q: str) -> tuple[str, str]:
     sl = sub.slice
     if isinstance(sl, ast.Slice):
@@ -335,33 +460,22 @@ def _key_safe(fn: ast.FunctionDef, sub: ast.Subscript, E: Effects, q: str) -> tu
         return "skip", "list index"
     base_txt = norm(sub.value)
     key_txt = norm(sl)
-    try:
-        gs = guards_at(fn, sub)
-    except AnalysisError:
-        gs = []
-    for g in gs:
-        t, pos = g.test, g.positive
-        while isinstance(t, ast.UnaryOp) and isinstance(t.op, ast.Not):
-            t, pos = t.operand, not pos
-        if isinstance(t, ast.Compare) and len(t.ops) == 1 and norm(t.comparators[0]) == base_txt and norm(t.left) == key_txt:
-            if (isinstance(t.ops[0], ast.In) and pos) or (isinstance(t.ops[0], ast.NotIn) and not pos):
-                return "safe", f"dominated by '{key_txt} in {base_txt}'"
-        # `not path or key not in d[...]` negated: both disjuncts false
-        if isinstance(t, ast.BoolOp) and isinstance(t.op, ast.Or) and not pos:
-            for v in t.values:
-                if isinstance(v, ast.Compare) and len(v.ops) == 1 and isinstance(v.ops[0], ast.NotIn) and norm(v.comparators[0]) == base_txt and norm(v.left) == key_txt:
-                    return "safe", f"dominated by not ('{key_txt} not in {base_txt}')"
-        # `if isinstance(x, dict) and k not in x: raise`  negated: x is not a dict (no auto-creation) or k in x
-        if isinstance(t, ast.BoolOp) and isinstance(t.op, ast.And) and not pos and len(t.values) == 2:
-            a, b = t.values
-            is_dict_test = isinstance(a, ast.Call) and dotted(a.func) == "isinstance" and len(a.args) == 2 and norm(a.args[0]) == base_txt and "dict" in norm(a.args[1])
-            notin = isinstance(b, ast.Compare) and len(b.ops) == 1 and isinstance(b.ops[0], ast.NotIn) and norm(b.comparators[0]) == base_txt and norm(b.left) == key_txt
-            if is_dict_test and notin:
-                return "safe", f"dominated by not (isinstance({base_txt}, dict) and {key_txt} not in {base_txt})"
-        if isinstance(t, ast.BoolOp) and isinstance(t.op, ast.And) and pos:
-            for v in t.values:
-                if isinstance(v, ast.Compare) and len(v.ops) == 1 and isinstance(v.ops[0], ast.In) and norm(v.comparators[0]) == base_txt and norm(v.left) == key_txt:
-                    return "safe", f"dominated by '{key_txt} in {base_txt}'"
+    why = _membership_dominates(fn, sub, base_txt, key_txt)
+    if why:
+        return "safe", why
+    # the test may stand in the callers: a private helper whose every call is dominated by it
+    if isinstance(sub.value, ast.Name) and sub.value.id in E.sum[q].params and isinstance(sl, ast.Constant) and q.split(".")[-1].startswith("_"):
+        from ..pyfacts import bind_args as _bind
+
+        callers = E.facts.callers_of(q)
+        oks = []
+        for cs in callers:
+            cfn = E.fns.get(cs.caller)
+            b = _bind(cs.node, fn, skip_self=q.count(".") == 2)
+            barg = b.get(sub.value.id)
+            oks.append(bool(cfn is not None and barg is not None and _membership_dominates(cfn, cs.node, norm(barg), key_txt)))
+        if callers and all(oks):
+            return "safe", f"every call of this private helper is dominated by '{key_txt} in <argument>' in its caller"
     # key iterates the container's own keys
     if isinstance(sl, ast.Name):
         for n in ast.walk(fn):
